@@ -98,7 +98,7 @@ pub fn run(sc: &Value, id: usize, out: Out) {
         verif::start(plan.clone());
         let r = guarded(|| apply_step(&mut t, st));
         let calls = verif::stop();
-        let mut ev = json!({"fam": "afftree", "sc": id, "step": j, "first": j == 0, "k": 2, "q": 1, "mode": "history", "op": op, "variant": "",
+        let mut ev = json!({"fam": "afftree", "sc": id, "step": j, "first": j == 0 || !record_all, "k": 2, "q": 1, "mode": "history", "op": op, "variant": "",
                             "pre": pre.clone(), "aff": st.get("aff").cloned().unwrap_or(none()), "exp": none(),
                             "faulty": !plan.is_empty(), "lp": lp_json(&calls, q), "last": last});
         match r {
